@@ -265,6 +265,17 @@ func (c *UDPConn) WriteTo(payload []byte, addr net.Addr) (int, error) { //nolint
 		return 0, err
 	}
 
+	// The wait for the permission may have outlasted the socket: nothing goes
+	// out on an allocation that has been given back.
+	if c.isClosed() {
+		return 0, &net.OpError{
+			Op:   "write",
+			Net:  c.LocalAddr().Network(),
+			Addr: c.LocalAddr(),
+			Err:  errClosed,
+		}
+	}
+
 	// Bind channel
 	bound, ok := c.bindingMgr.findByAddr(addr)
 	if !ok {
